@@ -420,8 +420,10 @@ func drawBlobLen(t *rapid.T, label string) int {
 			n = 0
 		}
 		return n
-	case m <= 8:
+	case m == 7:
 		return rapid.IntRange(0, 300).Draw(t, label+"-small")
+	case m == 8:
+		return gen.ImplLen(t, label+"-impl", 4097)
 	}
 	return rapid.IntRange(0, 70000).Draw(t, label+"-any")
 }
